@@ -1,4 +1,5 @@
 import CCV.Drv.C13
+import CCV.Drv.C01
 import CCV.Drv.C20
 import CCV.Drv.C19
 import CCV.Drv.C09
@@ -25,6 +26,7 @@ open CCV.Drv
 def dispatch (line : String) : String :=
   match line.trimAscii.toString.splitOn " " with
   | "C13" :: rest => C13.handle rest
+  | "C01" :: rest => C01.handle rest
   | "C20" :: rest => C20.handle rest
   | "C19" :: rest => C19.handle rest
   | "C09" :: rest => C09.handle rest
